@@ -60,6 +60,7 @@ func ConvertToParagraph(incoming interface{}) (*Paragraph, error) {
 func convertToParagraph(data reflect.Value) (*Paragraph, error) {
 	order := []string{}
 	values := map[string]string{}
+	cleared := []string{}
 
 	if data.Type().Kind() != reflect.Struct {
 		return nil, fmt.Errorf("Can only Decode a Struct")
@@ -96,6 +97,9 @@ func convertToParagraph(data reflect.Value) (*Paragraph, error) {
 
 		required := fieldType.Tag.Get("required") == "true"
 		if data == "" && !required {
+			/* The field is empty now; don't let a value it had when the
+			 * embedded Paragraph was read shine through. */
+			cleared = append(cleared, paragraphKey)
 			continue
 		}
 
@@ -107,6 +111,18 @@ func convertToParagraph(data reflect.Value) (*Paragraph, error) {
 		values[paragraphKey] = data
 	}
 	para := foundParagraph.Update(Paragraph{Order: order, Values: values})
+	for _, key := range cleared {
+		if _, found := para.Values[key]; !found {
+			continue
+		}
+		delete(para.Values, key)
+		for i, el := range para.Order {
+			if el == key {
+				para.Order = append(para.Order[:i], para.Order[i+1:]...)
+				break
+			}
+		}
+	}
 	return &para, nil
 }
 
@@ -123,6 +139,9 @@ func marshalStructValue(field reflect.Value, fieldType reflect.StructField) (str
 	case reflect.Int:
 		return strconv.Itoa(int(field.Int())), nil
 	case reflect.Ptr:
+		if field.IsNil() {
+			return "", nil
+		}
 		return marshalStructValue(field.Elem(), fieldType)
 	case reflect.Slice:
 		return marshalStructValueSlice(field, fieldType)
